@@ -223,7 +223,10 @@ async fn eval_vec(vec: &Vec<Expr>, context: &mut EvalContext<'_>) -> Result<Valu
 fn int(value: Value) -> Result<Value> {
     match value.clone() {
         Value::Int(_) => Ok(value),
-        Value::Float(val) => Ok((val as i128).into()),
+        Value::Float(val) => val
+            .to_i128()
+            .ok_or_else(|| Error::invalid_cast(value, "Value::Int"))
+            .map(Value::Int),
         Value::Decimal(val) => val
             .to_i128()
             .ok_or_else(|| Error::invalid_cast(value, "Value::Int"))
